@@ -346,7 +346,10 @@ class Collector:
         key = []
         for loop_rank in loop_ranks[er_ind + 1:tree_ind]:
             if loop_rank in tensor_ir.get_ranks():
-                key.append(EVar(loop_rank.lower()))
+                # A flattened rank is iterated as its unpacked coordinates
+                for iter_rank in self.program.get_loop_order().get_iter_ranks(
+                        loop_rank):
+                    key.append(EVar(iter_rank.lower()))
         key_tuple = ETuple(tuple(key))
 
         cond = EBinOp(key_tuple, ONotIn(), EVar(trace))
